@@ -284,7 +284,8 @@ func genCase(t *rapid.T) Case {
 			if fixedBases[c.Base] != nil {
 				d = []string{"true", "false", "one", "two", "three", "four", "auto", "5", "100", "101", "x", "One", ""}[g.pick(13, "fdef")]
 			} else if c.Base == "string" {
-				d = []string{"a", "ab", "abz", "cdcd", "", "xyz", "b", "aaaaaaaaaaaaaaaaaaaa", "az", "abab", "aaz", "abcz"}[g.pick(12, "sdef")]
+				// (blanks at the ends of a default are part of the value)
+				d = []string{"a", "ab", "abz", "cdcd", "", "xyz", "b", "aaaaaaaaaaaaaaaaaaaa", "az", "abab", "aaz", "abcz", " a", "ab ", " ", " abz ", "a b", "\tab"}[g.pick(18, "sdef")]
 			} else {
 				iv := sp.Ranges[g.pick(len(sp.Ranges), "defiv")]
 				switch g.pick(8, "defpt") {
@@ -294,6 +295,10 @@ func genCase(t *rapid.T) Case {
 					d = fmtScaled(iv.Hi, c.FD)
 				case 4:
 					d = fmtScaled(new(big.Int).Add(iv.Hi, big.NewInt(1)), c.FD)
+				}
+				if g.pick(8, "defblank") == 0 {
+					// a number with a blank in front or behind is no lexical value of the type
+					d = []string{" " + d, d + " ", " " + d + " "}[g.pick(3, "defblankpos")]
 				}
 			}
 			l.Default = &d
